@@ -34,6 +34,11 @@ pub enum Behaviour {
     Garbage,
     /// answer StartTLS with a well-formed non-extended response
     WrongResponse,
+    /// answer StartTLS with a well-formed envelope whose result cannot be decoded (0 = empty
+    /// ExtendedResponse, 1 = cut after the result code, 2 = result code as INTEGER, 3 = empty
+    /// IntermediateResponse, 4 = success with non-UTF-8 diagnostic text), then go along with a TLS
+    /// handshake (trusted certificate) if the client starts one anyway
+    MalformedThenTls(u8),
     /// close right after reading the request (or right after accept for ldaps)
     Close,
     /// success + forged cleartext responses in the same segment, then real TLS (good cert);
@@ -154,6 +159,18 @@ async fn handle(mut s: TcpStream, setup: Setup, tap: Arc<Mutex<Tap>>) {
             Behaviour::RefuseThenTls(rc) => {
                 let _ = s.write_all(&ext_ok(*rc)).await;
                 // falls through to the TLS phase: a client that honours the refusal just closes
+            }
+            Behaviour::MalformedThenTls(kind) => {
+                use crate::ber::{Node, APP};
+                let op = match kind {
+                    0 => Node::C { class: APP, tag: 24, kids: vec![] },
+                    1 => Node::C { class: APP, tag: 24, kids: vec![ber::enumerated(0)] },
+                    2 => Node::C { class: APP, tag: 24, kids: vec![ber::integer(0), ber::octets(b""), ber::octets(b"")] },
+                    3 => Node::C { class: APP, tag: 25, kids: vec![] },
+                    _ => Node::C { class: APP, tag: 24, kids: vec![ber::enumerated(0), ber::octets(b""), ber::octets(&[0x67, 0x6f, 0xff, 0xfe])] },
+                };
+                let _ = s.write_all(&ber::encode_min(&ber::seq(vec![ber::integer(id), op]))).await;
+                // falls through to the TLS phase
             }
             Behaviour::Garbage => {
                 let _ = s.write_all(&[0x16, 0x03, 0x01, 0x00, 0x02, 0xff, 0xff]).await;
@@ -292,6 +309,8 @@ fn matrix(rng: &mut Rng, reps: usize) -> Vec<Setup> {
                     Behaviour::RefuseThenTls(1 + rng.below(123) as u32),
                     Behaviour::Garbage,
                     Behaviour::WrongResponse,
+                    Behaviour::MalformedThenTls(rng.below(5) as u8),
+                    Behaviour::MalformedThenTls(rng.below(5) as u8),
                     Behaviour::Close,
                     Behaviour::InjectSameSegment(1 + rng.usize(64)),
                     Behaviour::InjectSameSegment(64),
@@ -360,7 +379,7 @@ fn judge(setup: &Setup, obs: &Obs, tap: &Tap, rep: &mut Report) {
     }
     // ---- establishment outcome ----
     let must_fail = match &setup.behaviour {
-        Behaviour::Refuse(_) | Behaviour::RefuseThenTls(_) | Behaviour::Garbage | Behaviour::WrongResponse | Behaviour::Close => true,
+        Behaviour::Refuse(_) | Behaviour::RefuseThenTls(_) | Behaviour::Garbage | Behaviour::WrongResponse | Behaviour::MalformedThenTls(_) | Behaviour::Close => true,
         Behaviour::Tls(c) => *c != Cert::Good && !setup.no_verify,
         Behaviour::InjectSameSegment(_) | Behaviour::InjectDelayed => false,
     };
@@ -374,6 +393,7 @@ fn judge(setup: &Setup, obs: &Obs, tap: &Tap, rep: &mut Report) {
         Behaviour::RefuseThenTls(rc) => if *rc == 10 { "starttls-refused-with-referral-code-but-server-handshakes".into() } else { "starttls-refused-but-server-handshakes".into() },
         Behaviour::Garbage => "garbage-response".into(),
         Behaviour::WrongResponse => "non-extended-response".into(),
+        Behaviour::MalformedThenTls(_) => "undecodable-starttls-result-but-server-handshakes".into(),
         Behaviour::Close => "server-closes".into(),
         Behaviour::InjectSameSegment(_) => "cleartext-injected-with-the-starttls-response".into(),
         Behaviour::InjectDelayed => "cleartext-injected-before-the-handshake".into(),
